@@ -118,7 +118,9 @@ func runC08(c *Ctx) {
 	c.Rule("C08.nonblocking-feed", "subscribe.(*Server).Update and its whole call closure (static calls, every non-test implementer of invoked module interfaces) contain no blocking construct; the closure must include coalesce.(*Queue).Insert")
 	c.Rule("C08.nonblocking-locks", "no blocking construct is executed while a mutex is held in packages match, coalesce, cache, ctree, metadata, latency (cache client fields bound to Server.Update; visitors passed to Query/Walk inside the module must be non-blocking)")
 	c.Rule("C08.bounded-backlog", "coalesce.insert never appends to the queue for a key that is already pending (<= 1 entry per distinct pending key)")
-	c.Rule("C08.timer", "every gRPC Send in package subscribe is preceded on its path by Reset of the send timer and followed by its Stop; the timer is the one the watcher goroutine of sendStreamingResults selects on, whose expiry arm sends a non-nil error on errC")
+	c.Rule("C08.isolation", "dropping one subscriber's registration leaves the others in place: removeQuery prunes a node only when it holds neither clients nor children")
+	removeQueryPrune(c, "C08.isolation")
+	c.Rule("C08.timer", "every gRPC Send in package subscribe is preceded on its path by Reset of the send timer and followed by its Stop; on every path of the sender loop (sendSubscribeResponse inlined) the timer is stopped whenever Queue.Next is called; the timer is the one the watcher goroutine of sendStreamingResults selects on, whose expiry arm sends a non-nil error on errC")
 	c.Rule("C08.dup-clone", "in package subscribe the only store into a field of a gnmi Notification/Update writes Update.Duplicates of a proto.Clone of the cached notification, and the value stored is the duplicate count handed to MakeSubscribeResponse, which sendStreamingResults takes from Queue.Next")
 
 	eff := NewEffects(P)
@@ -224,45 +226,7 @@ func runC08(c *Ctx) {
 	queueNextRepr(c, "C08.requeue")
 	// ---- timer
 	{
-		isSend := func(ev *Ev) bool { return evIsStream(ev, "Send") || evIsStream(ev, "SendMsg") }
-		nSend := 0
-		for _, f := range []*ssa.Function{ssr, sres} {
-			c.Analysed(fnName(f))
-			e := &PPA{MaxVisits: 2, Watch: func(ev *Ev) bool {
-				return isSend(ev) || ev.Label == "call:(*time.Timer).Reset" || ev.Label == "call:(*time.Timer).Stop"
-			}}
-			e.Run(f)
-			c.Paths += len(e.Paths)
-			seen := map[ssa.Instruction]bool{}
-			for i := range e.Paths {
-				p := &e.Paths[i]
-				for j := range p.Trace {
-					ev := &p.Trace[j]
-					if !isSend(ev) {
-						continue
-					}
-					if !seen[ev.In] {
-						seen[ev.In] = true
-						nSend++
-					}
-					// nearest timer op before must be Reset, and a Stop must follow
-					armed := false
-					for k := j - 1; k >= 0; k-- {
-						if p.Trace[k].Label == "call:(*time.Timer).Reset" {
-							armed = true
-							break
-						}
-						if p.Trace[k].Label == "call:(*time.Timer).Stop" {
-							break
-						}
-					}
-					stopped := p.Index(j+1, lbl("call:(*time.Timer).Stop")) >= 0
-					key := "Send(" + Expr(ev.In.(ssa.CallInstruction).Common().Args[0]) + ") under the send timer"
-					c.Check(armed && stopped, "C08.timer", fnName(f), key, P.Pos(posOf(ev.In)), fmt.Sprintf("timer armed before=%v stopped after=%v; path: %s", armed, stopped, p.String()))
-				}
-			}
-		}
-		c.Floor("C08.timer/send-sites", nSend, 2)
+		sendTimerDiscipline(c, "C08.timer")
 		// the timer handed to sendSubscribeResponse is the one the watcher selects on
 		var timerVal ssa.Value
 		okWire := false
@@ -390,4 +354,101 @@ func runC08(c *Ctx) {
 func sameLoad(v ssa.Value, al *ssa.Alloc) bool {
 	u, ok := v.(*ssa.UnOp)
 	return ok && u.X == ssa.Value(al)
+}
+
+// sendTimerDiscipline: every stream Send runs under the armed send timer and the timer is
+// stopped afterwards; the timer is stopped whenever the sender waits for the next item
+// (shared by C08 and C05: a timer left armed ends a healthy POLL stream).
+func sendTimerDiscipline(c *Ctx, rule string) {
+	P := c.P
+	ssr := P.Method("subscribe", "Server", "sendSubscribeResponse")
+	sres := P.Method("subscribe", "Server", "sendStreamingResults")
+	if ssr == nil || sres == nil {
+		c.Unresolved(rule, "subscribe.(*Server).sendSubscribeResponse / sendStreamingResults")
+		return
+	}
+	{
+		isSend := func(ev *Ev) bool { return evIsStream(ev, "Send") || evIsStream(ev, "SendMsg") }
+		nSend := 0
+		for _, f := range []*ssa.Function{ssr, sres} {
+			c.Analysed(fnName(f))
+			e := &PPA{MaxVisits: 2, Watch: func(ev *Ev) bool {
+				return isSend(ev) || ev.Label == "call:(*time.Timer).Reset" || ev.Label == "call:(*time.Timer).Stop"
+			}}
+			e.Run(f)
+			c.Paths += len(e.Paths)
+			seen := map[ssa.Instruction]bool{}
+			for i := range e.Paths {
+				p := &e.Paths[i]
+				for j := range p.Trace {
+					ev := &p.Trace[j]
+					if !isSend(ev) {
+						continue
+					}
+					if !seen[ev.In] {
+						seen[ev.In] = true
+						nSend++
+					}
+					// nearest timer op before must be Reset, and a Stop must follow
+					armed := false
+					for k := j - 1; k >= 0; k-- {
+						if p.Trace[k].Label == "call:(*time.Timer).Reset" {
+							armed = true
+							break
+						}
+						if p.Trace[k].Label == "call:(*time.Timer).Stop" {
+							break
+						}
+					}
+					stopped := p.Index(j+1, lbl("call:(*time.Timer).Stop")) >= 0
+					key := "Send(" + Expr(ev.In.(ssa.CallInstruction).Common().Args[0]) + ") under the send timer"
+					c.Check(armed && stopped, rule, fnName(f), key, P.Pos(posOf(ev.In)), fmt.Sprintf("timer armed before=%v stopped after=%v; path: %s", armed, stopped, p.String()))
+				}
+			}
+		}
+		c.Floor(rule+"/send-sites", nSend, 2)
+		// typestate of the send timer over the sender loop: it is disarmed whenever the
+		// sender goes back to wait for the next item (only sending is charged to the timeout)
+		{
+			isNext := lbl("call:(*coalesce.Queue).Next")
+			// induction over the loop: stopped at the first wait, and one iteration
+			// started in the stopped state ends in it (two visits of the header)
+			mv := 2
+			if c.Deep {
+				mv = 3
+			}
+			e := &PPA{MaxVisits: mv, NoAuto: true, Inline: func(fr *Frame, call ssa.CallInstruction, callee *ssa.Function) bool { return callee == ssr },
+				Watch: func(ev *Ev) bool {
+					return isNext(ev) || ev.Label == "call:(*time.Timer).Reset" || ev.Label == "call:(*time.Timer).Stop" || ev.Label == "call:time.NewTimer"
+				}}
+			e.Run(sres)
+			c.Paths += len(e.Paths)
+			nWait := 0
+			bad := ""
+			for i := range e.Paths {
+				p := &e.Paths[i]
+				state := "none"
+				for j := range p.Trace {
+					ev := &p.Trace[j]
+					switch {
+					case ev.Label == "call:time.NewTimer" || ev.Label == "call:(*time.Timer).Reset":
+						state = "armed"
+					case ev.Label == "call:(*time.Timer).Stop":
+						state = "stopped"
+					case isNext(ev):
+						nWait++
+						if state != "stopped" && bad == "" {
+							bad = "timer is " + state + " when the sender waits for the next item; path: " + p.String()
+						}
+					}
+				}
+			}
+			if e.Overflow {
+				c.Unknown(rule, fnName(sres), "send timer is disarmed while waiting for the next item", P.Pos(sres.Pos()), "path overflow")
+			} else {
+				c.Check(bad == "", rule, fnName(sres), "send timer is disarmed while waiting for the next item", P.Pos(sres.Pos()), fmt.Sprintf("%d waits on %d paths; %s", nWait, len(e.Paths), bad))
+			}
+			c.Floor(rule+"/waits", nWait, 2)
+		}
+	}
 }
